@@ -37,6 +37,9 @@ LemmasHold == Chosen =>
     /\ LemmaNormalEq(D, sel.Z, sel.X) /\ LemmaNormalEq(D, sel.Z, sel.Y) /\ LemmaPositive(D, sel.Z)
     /\ LemmaSym(D, sel.X, sel.Y, sel.Z) /\ LemmaCauchy(D, sel.X, sel.Y, sel.Z)
     /\ (tr # NoTr => LemmaAffine(D, sel.X, sel.Y, sel.Z, tr.v, tr.a, tr.b))
+\* the data the implementation is run on: the instance re-parametrised by tr
+DT == IF tr = NoTr THEN D ELSE Affine(D, tr.v, tr.a, tr.b)
 Emit == Chosen => LET F == RForm(D, sel.X, sel.Y, sel.Z) IN
-    PrintT(ToJson([inst |-> Insts[di].id, X |-> sel.X, Y |-> sel.Y, Z |-> sel.Z, tr |-> tr, F |-> F, pk |-> RKind(F)]))
+    PrintT(ToJson([inst |-> Insts[di].id, X |-> sel.X, Y |-> sel.Y, Z |-> sel.Z, tr |-> tr, F |-> F, pk |-> RKind(F),
+                   dev |-> IF DevDefined(DT, sel.X, sel.Y, sel.Z) THEN DevRForm(DT, sel.X, sel.Y, sel.Z) ELSE [n |-> 0]]))
 =============================================================================
